@@ -44,7 +44,7 @@ _EMPLACE = _compiles(
 
 CFG = P(
     harness=["harness/C13.cc"], harness_deps=["harness/bfs.hh"],
-    srcs=["Strings.cc", "Filesystem.cc", "Process.cc", "Time.cc", "Encoding.cc"],
+    srcs=[],
     harness_cxxflags=["-fno-access-control"] + (["-DC13_HAVE_EMPLACE"] if _EMPLACE else []),
     deadline={"quick": 600, "thorough": 3600},
     # the search does ~10^8 small allocations: short allocation stacks and a small quarantine keep ASan's
@@ -60,6 +60,7 @@ CFG = P(
         "points come from a 3x3 integer grid (Vector2<int64_t>) or the 2x2x2 cube (Vector3<int64_t>), values from {0} or {0,1}; larger grids, other coordinate types and the statement's random 300-operation histories are not covered",
         "the closure is bounded by the number of live entries (quick 5/3/3, thorough 7/5/5), not by history length",
         "the ordering invariant named by the fields (`before` strictly smaller on `dim`, `after_or_equal` the rest) is treated as part of the contract and checked white-box; dim == depth % dimensions and parent links are checked in every state, which is what makes the canonical form lossless",
+        "a structure that violates the ordering invariant is an error state: the violation is reported on the transition that produced it, the full oracle is evaluated in it, and it is not expanded further (prunes nothing on a tree without such violations)",
         "don't care: operator++ / erase_advance on an end iterator, iterators kept across an unrelated erase, depth(); at() on a point with several entries may return the value of any of them",
         "KDTree::emplace is ill-formed on the pinned tree (cannot be instantiated): it is executed only when the tree under test makes it compile",
         "a crash of ~KDTree on an empty tree is established once per process in a forked child and then reported for every later empty destruction without re-executing it",
